@@ -4,6 +4,7 @@ import (
 	"errors"
 	"io"
 	"net"
+	"os"
 	"sync"
 	"time"
 )
@@ -14,14 +15,20 @@ import (
 // result becomes readable by the receiver in pieces of at most Seg(k) bytes.
 type Wire struct {
 	ClosedErr error // what Read returns after the reading end closed the stream (default net.ErrClosed; net.Pipe uses io.ErrClosedPipe)
-	mu   sync.Mutex
-	cond *sync.Cond
+	mu        sync.Mutex
+	cond      *sync.Cond
 
 	Framed bool
 	HdrLen int
 	Edit   func(idx int, rec []byte) [][]byte // nil: identity
 	Seg    func(k int) int                    // max bytes for the k-th Read; nil or <=0: unlimited
 	Cut    int                                // >=0: receiver sees EOF after Cut bytes were delivered
+	// EOFWithData: the Read that hands over the last bytes of the stream returns them together with
+	// io.EOF (allowed by io.Reader; common for tunnels and user-space stacks) instead of a separate (0, EOF)
+	EOFWithData bool
+	// Deadlines: honour SetReadDeadline (receiver) and SetWriteDeadline (sender) as net.Conn does
+	Deadlines bool
+	rdl, wdl  time.Time
 
 	raw       []byte
 	out       []byte
@@ -49,6 +56,9 @@ func (w *Wire) push(b []byte) error {
 	}
 	if w.rclosed {
 		return io.ErrClosedPipe
+	}
+	if w.Deadlines && !w.wdl.IsZero() && !time.Now().Before(w.wdl) {
+		return os.ErrDeadlineExceeded
 	}
 	w.Writes = append(w.Writes, len(b))
 	if !w.Framed {
@@ -122,6 +132,9 @@ func (w *Wire) read(p []byte) (int, error) {
 		if w.Cut >= 0 && len(w.Delivered) >= w.Cut {
 			return 0, io.EOF
 		}
+		if w.Deadlines && !w.rdl.IsZero() && !time.Now().Before(w.rdl) {
+			return 0, os.ErrDeadlineExceeded
+		}
 		if len(w.out) > 0 {
 			break
 		}
@@ -148,7 +161,27 @@ func (w *Wire) read(p []byte) (int, error) {
 	w.Delivered = append(w.Delivered, w.out[:n]...)
 	w.out = w.out[n:]
 	w.nread++
+	if w.EOFWithData && ((len(w.out) == 0 && w.wclosed) || (w.Cut >= 0 && len(w.Delivered) >= w.Cut)) {
+		return n, io.EOF
+	}
 	return n, nil
+}
+
+func (w *Wire) setDeadline(read bool, t time.Time) {
+	w.mu.Lock()
+	if read {
+		w.rdl = t
+	} else {
+		w.wdl = t
+	}
+	on := w.Deadlines
+	w.cond.Broadcast()
+	w.mu.Unlock()
+	if on && read && !t.IsZero() {
+		if d := time.Until(t); d > 0 {
+			time.AfterFunc(d+time.Millisecond, func() { w.mu.Lock(); w.cond.Broadcast(); w.mu.Unlock() })
+		}
+	}
 }
 
 // ReaderIdle reports that the receiving endpoint is blocked in Read with nothing left to read.
@@ -218,9 +251,13 @@ func (c *SConn) RemoteAddr() net.Addr {
 	}
 	return sAddr("peer-of-" + c.name)
 }
-func (c *SConn) SetDeadline(t time.Time) error      { return nil }
-func (c *SConn) SetReadDeadline(t time.Time) error  { return nil }
-func (c *SConn) SetWriteDeadline(t time.Time) error { return nil }
+func (c *SConn) SetDeadline(t time.Time) error {
+	c.In.setDeadline(true, t)
+	c.Out.setDeadline(false, t)
+	return nil
+}
+func (c *SConn) SetReadDeadline(t time.Time) error  { c.In.setDeadline(true, t); return nil }
+func (c *SConn) SetWriteDeadline(t time.Time) error { c.Out.setDeadline(false, t); return nil }
 
 // StreamPair returns client and server ends; c2s carries client->server bytes.
 func StreamPair() (cli, srv *SConn, c2s, s2c *Wire) {
